@@ -133,6 +133,14 @@ Definition get_deleted_sets (bonds : graph) (mapping : list (Z * Z)) (to_del : l
   | Some _ => get_deleted_loops bonds (image mapping to_del) (kept mapping to_del)
   end.
 
+(* ====================================================================================================
+   BaseReactor.__init__: which pattern atoms are to be deleted
+       self._to_delete = {n for n, a in pattern.atoms() if not a.masked} - set(replacement) if delete_atoms else ()
+   pattern = list of (atom number, masked) in dict order; replacement = list(replacement) (its atom numbers)
+   ==================================================================================================== *)
+Definition to_delete_of (pattern : list (Z * bool)) (replacement : list Z) (delete_atoms : bool) : list Z :=
+  if delete_atoms then zdiff (keys (filter (fun na => negb (snd na)) pattern)) replacement else [].
+
 (* ---------- the specification (DESIGN Appendix A) ---------- *)
 Definition adj (g : graph) (a b : Z) : Prop := In b (gnbrs g a).
 (* y can be reached from x inside the remainder (the graph without the atoms D) *)
@@ -360,6 +368,8 @@ Definition mol_struct_eqb (g h : mol) : bool :=
 Definition patch_res_eqb (model impl : pyres (mol * list (Z * Z))) : bool :=
   pyres_eqb (fun x y => mol_struct_eqb (fst x) (fst y) && list_eqb (pair_eqb Z.eqb Z.eqb) (snd x) (snd y)) model impl.
 Definition zlist_res_eqb (model impl : pyres (list Z)) : bool := pyres_eqb (list_eqb Z.eqb) (sorted_res model) impl.
+Definition to_delete_eqb (pattern : list (Z * bool)) (replacement : list Z) (delete_atoms : bool) (impl : list Z) : bool :=
+  list_eqb Z.eqb (zsort (to_delete_of pattern replacement delete_atoms)) impl.
 (* one _get_deleted case: the returned set (or exception) and, when the real call reached the loops, its local sets
    `delete` and `keep` (each compared after sorting) *)
 Definition gd_case_eqb (g : graph) (mapping : list (Z * Z)) (to_del : list Z) (impl : pyres (list Z))
